@@ -41,6 +41,9 @@ type tokenWorld struct {
 	dead []*grantedToken // tokens known to be revoked, rotated or expired (for "use again")
 	n    int
 	step int
+	// faulty: this world is a faulting configuration (storage calls may fail inside operations); fault-free worlds
+	// keep every oracle at full strength
+	faulty bool
 }
 
 func (tw *tokenWorld) site(s string) string { return "router" + tw.w.Router + "/" + s }
@@ -240,12 +243,32 @@ func (tw *tokenWorld) refresh(ch *kernel.Chooser) string {
 	presented := form.Get("refresh_token")
 	wasLive := w.Store.RefreshLive(presented)
 	snap := w.Store.RefreshSnapshot(presented)
+	env := ""
+	if tw.faulty && tw.prop == "C07" && ch.Bool(1, 5) {
+		// one storage call of this request fails: the request may fail, but an answer that still says success must
+		// satisfy every rule below (rotation through the storage, the storage's new refresh token in the response)
+		k, kind, fired := ch.Range(1, 8), []string{world.FaultError, world.FaultTimeout}[ch.Int(2)], false
+		env = fmt.Sprintf(" storage-%s@%d", kind, k)
+		w.Store.Inject = func(n int, method string, rid int) string {
+			if n == k && !fired {
+				fired = true
+				tw.o.Fault(kind)
+				env += "(" + method + ")"
+				return kind
+			}
+			return ""
+		}
+	}
 	r := w.PostForm("/oauth/token", form, p.creds)
-	desc := fmt.Sprintf("refresh token of %s by %s (%s) scope=%s live=%v -> %d", g.client, caller, p.label, scopeKind, wasLive, statusOf(r))
+	w.Store.Inject = nil
+	desc := fmt.Sprintf("refresh token of %s by %s (%s) scope=%s live=%v%s -> %d", g.client, caller, p.label, scopeKind, wasLive, env, statusOf(r))
 	if panicProbe(tw.o, r) || r.Err != nil {
 		return desc
 	}
 	tr, ok := isTokenSuccess(r)
+	if !ok && env != "" {
+		return desc // a request that met a storage fault may fail in whatever way C10 admits
+	}
 	if !ok {
 		tw.checkRefusal(r, desc)
 		if scopeKind == "superset" || scopeKind == "disjoint" {
@@ -798,13 +821,18 @@ func runTokenWorld(t *testing.T, spec kernel.Spec, prop string, weights map[stri
 			o.Infra = "world: " + err.Error()
 			return
 		}
-		tw := &tokenWorld{w: w, o: o, prop: prop, b: w.Net.NewBrowser("b1")}
+		tw := &tokenWorld{w: w, o: o, prop: prop, b: w.Net.NewBrowser("b1"), faulty: tape.Sub("cfg-faulty").Bool(1, 2)}
+		if tw.faulty {
+			o.Probe("faulting-world")
+		} else {
+			o.Probe("fault-free-world")
+		}
 		type op struct {
 			name string
 			f    func(*kernel.Chooser) string
 		}
 		ops := []op{{"obtain", tw.obtain}, {"refresh", tw.refresh}, {"userinfo", tw.userinfo}, {"introspect", tw.introspect},
-			{"revoke", tw.revoke}, {"end_session", tw.endSession}, {"advance", tw.advance}, {"other", tw.otherGrant}, {"code", tw.codeGrant}}
+			{"revoke", tw.revoke}, {"end_session", tw.endSession}, {"advance", tw.advance}, {"other", tw.otherGrant}, {"code", tw.codeGrant}, {"race", tw.race}}
 		total := 0
 		for _, op := range ops {
 			total += weights[op.name]
@@ -843,13 +871,13 @@ func runTokenWorld(t *testing.T, spec kernel.Spec, prop string, weights map[stri
 }
 
 func RunC07(t *testing.T, spec kernel.Spec) *kernel.Outcome {
-	o := runTokenWorld(t, spec, "C07", map[string]int{"obtain": 3, "refresh": 10, "revoke": 1, "advance": 1, "end_session": 1})
+	o := runTokenWorld(t, spec, "C07", map[string]int{"obtain": 3, "refresh": 10, "revoke": 1, "advance": 1, "end_session": 1, "race": 3})
 	o.Nontrivial = o.Probes["refresh-success"] > 0
 	return o
 }
 
 func RunC08(t *testing.T, spec kernel.Spec) *kernel.Outcome {
-	o := runTokenWorld(t, spec, "C08", map[string]int{"obtain": 3, "refresh": 1, "userinfo": 5, "introspect": 5, "revoke": 4, "end_session": 1, "advance": 2})
+	o := runTokenWorld(t, spec, "C08", map[string]int{"obtain": 3, "refresh": 1, "userinfo": 5, "introspect": 5, "revoke": 4, "end_session": 1, "advance": 2, "race": 4})
 	o.Nontrivial = o.Probes["userinfo-200"]+o.Probes["introspect-active"] > 0 && o.Probes["revocation-effective"]+o.Probes["logout"] > 0
 	return o
 }
